@@ -1,6 +1,7 @@
 package main
 
 import (
+	"sort"
 	"fmt"
 	"go/token"
 	"strings"
@@ -389,3 +390,98 @@ func (c *Ctx) ttCondString() {
 var _ = token.ADD
 var _ = fmt.Sprint
 var _ = strings.Join
+
+// ruleCondStringEncap: on every default-rendering path of condition.string the
+// expression text passes through encapValue(r.cfg.enc, <text>) exactly once and
+// that result is what is concatenated (whatever kind of expression produced
+// the text: Stack, Condition, stringer or primitive).
+func (c *Ctx) ruleCondStringEncap() {
+	rep := c.rep
+	fn := c.anchor("R-ENCAP", "condition.string")
+	if fn == nil {
+		return
+	}
+	fa := c.eng.analyze(fn, nil)
+	pos := c.p.pos(fn.Pos())
+	encs := c.findCalls(fn, "encapValue")
+	var problems []string
+	if len(encs) == 0 {
+		problems = append(problems, "no encapValue call")
+	}
+	n := 0
+	for _, ret := range c.returnsOf(fn) {
+		for _, s := range fa.statesBefore(ret) {
+			// presentation policy installed: its result is returned
+			usedPolicy := false
+			t := fa.term(s, ret.Results[0])
+			if t.K == "V" {
+				if call, ok := t.V.(*ssa.Call); ok && c.p.callee(&call.Call) == nil && !call.Call.IsInvoke() {
+					usedPolicy = true
+				}
+			}
+			if usedPolicy {
+				continue
+			}
+			n++
+			done := 0
+			var the *ssa.Call
+			for _, e := range encs {
+				if _, did := s.cep[e]; did {
+					done++
+					the = e
+				}
+			}
+			if done != 1 {
+				problems = append(problems, fmt.Sprintf("a rendering path applies the encapsulation %d times (expected once, for every kind of expression)", done))
+				continue
+			}
+			// its text argument is the rendering of the expression: the result of String()/stringer/primitiveStringer
+			at := the.Call.Args[1]
+			for i := 0; i < 6; i++ {
+				if bv, ok := s.bind[at]; ok && bv != nil && bv != at {
+					at = bv
+				} else {
+					break
+				}
+			}
+			if _, isCall := at.(*ssa.Call); !isCall {
+				problems = append(problems, "the text encapsulated is not the rendering of the expression")
+			}
+			// the result is part of the string returned
+			if !c.stringUses(ret.Results[0], the, map[ssa.Value]bool{}) {
+				problems = append(problems, "the encapsulated text is not what is concatenated into the result")
+			}
+		}
+	}
+	if n == 0 {
+		problems = append(problems, "no default rendering path")
+	}
+	if len(problems) == 0 {
+		rep.ok("R-ENCAP", relName(fn), "expression text encapsulated", pos, fmt.Sprintf("all %d default rendering path states run encapValue once on the expression's text and concatenate its result", n))
+	} else {
+		sort.Strings(problems)
+		rep.bad("R-ENCAP", relName(fn), "expression text encapsulated", pos, strings.Join(uniq(problems), "; "))
+	}
+}
+
+// stringUses: the string value v is built (by concatenation / merges) from target.
+func (c *Ctx) stringUses(v ssa.Value, target ssa.Value, seen map[ssa.Value]bool) bool {
+	if v == target {
+		return true
+	}
+	if seen[v] {
+		return false
+	}
+	seen[v] = true
+	switch x := v.(type) {
+	case *ssa.BinOp:
+		return c.stringUses(x.X, target, seen) || c.stringUses(x.Y, target, seen)
+	case *ssa.Phi:
+		for _, e := range x.Edges {
+			if c.stringUses(e, target, seen) {
+				return true
+			}
+		}
+	}
+	return false
+}
